@@ -11,6 +11,7 @@ and the runtime map-order seam to $GOROOT/src/runtime/ -- all through
 import json
 import os
 import re
+import shutil
 import subprocess
 import sys
 
@@ -161,7 +162,7 @@ def make_overlay(name, seam=False, race=False, extra_replace=None, shim=True):
     if os.environ.get("VERIF_OVERLAY_EXTRA"):
         # used by tools/vmutants.py: deliberate property-breaking changes applied to copies
         extra_replace.update(json.load(open(os.environ["VERIF_OVERLAY_EXTRA"])))
-    gen = os.path.join(CACHE, "gen", name)
+    gen = os.path.join(CACHE, "gen", f"{name}.{os.getpid()}")
     os.makedirs(gen, exist_ok=True)
     repl = {}
     # virtual harness packages
@@ -209,6 +210,7 @@ def build(harness, out, seam=False, race=False, test=False, extra_replace=None, 
     if race:
         cmd.insert(2, "-race")
     p = subprocess.run(cmd, cwd=REPO, env=env, capture_output=True, text=True)
+    shutil.rmtree(os.path.dirname(ov), ignore_errors=True)
     if p.returncode != 0:
         raise BuildError(p.stdout + p.stderr)
     return info
